@@ -1837,11 +1837,16 @@ class Scheduler:
         if self.is_paused:  # cannot be stalled it's not even running
             return False
         self.pool.compute_runahead()
-        if self.pool.release_runahead_tasks():
+        limit = self.pool.runahead_limit_point
+        if limit is not None and any(
+            itask.state.is_runahead and itask.point <= limit
+            for itask in self.pool.get_tasks()
+        ):
             # Tasks spawned, or freed by a runahead limit that moved on,
             # during this main loop iteration (e.g. the tasks holding the
-            # limit back were just removed) were still flagged as runahead
-            # limited: they can run, so the workflow is not stalled.
+            # limit back were just removed) are still flagged as runahead
+            # limited but will be released at the start of the next
+            # iteration: they can run, so the workflow is not stalled.
             return False
         if self.pool.is_stalled():
             self.is_stalled = True
